@@ -49,13 +49,15 @@ func zzWebseedChecks(t *torrent) {
 // bitfield; every sequence of 3 events - the peer unchokes / chokes /
 // completes its piece (hash ok or not) / disconnects, a web seed
 // finishes the piece it is on (its write completes, hash ok or not), a web
-// seed fails: the peer-side clauses (never request a piece we have or are
+// seed fails, the retry of a failed web seed fires (web seeds may also have
+// failed before the peer connected): the peer-side clauses (never request a piece we have or are
 // writing, ...) plus: web-seed ranges never overlap, range bookkeeping is
 // consistent, the active-download count is exact and within its limit, no crash.
 //
 //vrt:cover ZZPickerWebseed3 peer took a piece from a web-seed range
 //vrt:cover ZZPickerWebseed3 web seed finished its range
 //vrt:cover ZZPickerWebseed3 two web seeds downloading
+//vrt:cover ZZPickerWebseed3 web-seed range handed out while the peer is downloading
 func ZZPickerWebseed3() { zzPickerWebseed(3) }
 
 // ZZPickerWebseed4: 4 events.
@@ -74,6 +76,16 @@ func zzPickerWebseed(steps int) {
 	}
 	zzStartDownloading(t, sto)
 	zzWebseedChecks(t)
+	// the web seeds may have failed right away (their retry is pending), so that
+	// peers get pieces before any web-seed range is handed out
+	if vrt.Bool("web_seeds_failed_at_first") {
+		for _, src := range t.webseedSources {
+			if src.Downloader != nil {
+				t.handleWebseedPieceResult(&urldownloader.PieceResult{Downloader: src.Downloader, Error: vrt.ErrIO})
+			}
+		}
+		zzWebseedChecks(t)
+	}
 	pe := zzAddPeer(t, 1, false, zzFastExt)
 	if pe == nil {
 		vrt.Assert(false, "peer not added")
@@ -93,7 +105,7 @@ func zzPickerWebseed(steps int) {
 			}
 		}
 		vrt.Cover(n == 2, "two web seeds downloading")
-		switch vrt.Choice("event", 5) {
+		switch vrt.Choice("event", 6) {
 		case 0:
 			vrt.Assume(!pe.Closed)
 			t.handlePeerMessage(peer.Message{Peer: pe, Message: peerprotocol.UnchokeMessage{}})
@@ -117,6 +129,12 @@ func zzPickerWebseed(steps int) {
 		case 3:
 			vrt.Assume(!pe.Closed)
 			t.closePeer(pe)
+		case 5: // the retry timer of a failed web seed fires
+			src := t.webseedSources[vrt.Choice("web_seed", 2)]
+			vrt.Assume(src.Disabled && src.Downloader == nil)
+			_, peerBusy := t.pieceDownloaders[pe]
+			t.startPieceDownloaderForWebseed(src)
+			vrt.Cover(peerBusy && src.Downloader != nil, "web-seed range handed out while the peer is downloading")
 		case 4:
 			src := t.webseedSources[vrt.Choice("web_seed", 2)]
 			vrt.Assume(src.Downloader != nil)
